@@ -551,13 +551,20 @@ fn model_deep(kind: &str, n: usize, drv: &mut Driver) -> String {
     if a.starts_with("ok") { "ok".into() } else { a }
 }
 
-fn run_deep(kind: &str, n: usize, cx: &mut Ctx, sum: &mut Summary) -> String {
+fn run_deep(kind: &str, n: usize, last_ok: usize, cx: &mut Ctx, sum: &mut Summary) -> String {
     let r = run_child(kind, n);
     sum.branch(&format!("deep-{}", r.split(' ').next().unwrap()));
     let case = json!({"deep": {"kind": kind, "depth": n}});
     if r.starts_with("abort") {
+        // report the smallest aborting depth (bisection between the last depth that survived and n)
+        let (mut lo, mut hi) = (last_ok, n);
+        while hi - lo > 1 {
+            let mid = lo + (hi - lo) / 2;
+            if run_child(kind, mid).starts_with("abort") { hi = mid } else { lo = mid }
+        }
         sum.oracle_violation("deep-nesting-aborts-process",
-            &format!("parse_query on {kind} nesting of depth {n} ({} bytes of query) kills the process: {r}", deep_query(kind, n).len()), case.clone());
+            &format!("parse_query on {kind} nesting of depth {hi} ({} bytes of query) kills the process: {r}; depth {lo} still returns (8 MiB main-thread stack, debug build)", deep_query(kind, hi).len()),
+            json!({"deep": {"kind": kind, "depth": hi}}));
     } else if r.contains("NOT-INVALID-QUERY") {
         sum.oracle_violation("parse-error-is-not-invalid-query", &r, case.clone());
     } else if n <= 3000 {
@@ -630,7 +637,7 @@ fn main() {
     sum.expect_branches(&["parse-ok", "parse-unterminated-quote", "parse-bad-date-range", "parse-unterminated-date-range",
         "parse-expected-rparen", "parse-unexpected-token", "parse-unexpected-end", "parse-unsupported-field",
         "ast-or", "ast-and", "ast-not", "ast-w", "ast-p", "ast-wild", "ast-uri", "ast-scope", "ast-track", "ast-tag", "ast-label",
-        "ast-date", "ast-w -", "ref-true", "ref-false", "trailing-tokens-dropped", "deep-ok"]);
+        "ast-date", "ast-w -", "ref-true", "ref-false", "trailing-tokens-dropped", "deep-ok", "deep-err"]);
 
     if args.mode == "replay" {
         let case = load_replay(args.replay_file.as_ref().expect("replay file"));
@@ -639,7 +646,7 @@ fn main() {
         if let Some(deep) = input.get("deep") {
             let kind = deep["kind"].as_str().unwrap();
             let n = deep["depth"].as_u64().unwrap() as usize;
-            let r = run_deep(kind, n, &mut cx, &mut sum);
+            let r = run_deep(kind, n, n.saturating_sub(1), &mut cx, &mut sum);
             println!("impl (child process): {kind} x {n} -> {r}");
             if n <= 3000 { if let Some(d) = cx.drv.as_deref_mut() { println!("model: {}", model_deep(kind, n, d)); } }
         } else if let Some(c) = input.get("char") {
@@ -659,40 +666,39 @@ fn main() {
     }
 
     let mut rng = Rng::new(args.seed);
+    let mut model_limit: Option<usize> = None;
     if let Some(d) = drv.as_mut() {
         let cfg = d.ask("cfg");
+        model_limit = cfg.split(' ').find_map(|kv| kv.strip_prefix("limit=")).and_then(|v| v.parse().ok());
         sum.notes.push(format!("model configuration read from the source tree: {cfg}"));
         check_tables(d, &mut sum);
+        if model_limit.is_some() {
+            let mut names: Vec<String> = sum.expected_branches.clone();
+            names.push("deep-rejected-too-deep".into());
+            sum.expected_branches = names;
+        }
     }
     let mut cx = Ctx { drv: drv.as_mut(), known };
-    // fixed corpus (contains the witnesses of both defects)
+    // pathological nesting (child process, default 8 MiB main-thread stack)
+    let mut depths: Vec<usize> = if args.thorough { vec![10, 63, 64, 65, 100, 127, 128, 129, 500, 1000, 3000, 10_000, 30_000, 100_000, 200_000] }
+                                 else { vec![10, 64, 65, 128, 129, 1000, 10_000, 200_000] };
+    if let Some(l) = model_limit { depths.extend([l.saturating_sub(1), l, l + 1]); }
+    depths.sort(); depths.dedup();
+    for kind in ["paren", "paren-open", "not", "not-paren", "and-chain", "or-chain", "rparen"] {
+        let mut last_ok = 0usize;
+        for &n in &depths {
+            let r = run_deep(kind, n, last_ok, &mut cx, &mut sum);
+            if r.starts_with("abort") { break; }
+            if r == "err too-deep" { sum.branch("deep-rejected-too-deep"); }
+            last_ok = n;
+        }
+    }
+    // fixed corpus (contains the witness of the scope defect)
     for (q, d) in corpus() { run_case(&q, None, &d, &mut cx, &mut sum, false); }
     {
         let d = Doc { content: "x".into(), uri: Some("mv2://Docs/a.md".into()), track: None, tags: vec![], labels: vec![], timestamp: 0, dates: vec![] };
         let a = Ast::Field("scope", "mv2://Docs".into());
         run_case("scope:mv2://Docs", Some(&a), &d, &mut cx, &mut sum, false);
-    }
-    // pathological nesting
-    let depths: &[usize] = if args.thorough { &[10, 100, 127, 128, 129, 500, 1000, 3000, 10_000, 30_000, 100_000, 200_000] }
-                           else { &[10, 128, 129, 1000, 10_000, 200_000] };
-    let mut first_abort: Option<(String, usize, usize)> = None;
-    for kind in ["paren", "paren-open", "not", "not-paren", "and-chain", "or-chain", "rparen"] {
-        let mut last_ok = 0usize;
-        for &n in depths {
-            let r = run_deep(kind, n, &mut cx, &mut sum);
-            if r.starts_with("abort") {
-                if first_abort.is_none() { first_abort = Some((kind.to_string(), last_ok, n)); }
-                break;
-            }
-            last_ok = n;
-        }
-    }
-    if let Some((kind, mut lo, mut hi)) = first_abort {
-        while hi - lo > (hi / 50).max(1) {
-            let mid = (lo + hi) / 2;
-            if run_child(&kind, mid).starts_with("abort") { hi = mid } else { lo = mid }
-        }
-        sum.notes.push(format!("smallest aborting {kind} nesting depth is between {lo} and {hi} (8 MiB main-thread stack, debug build)"));
     }
     // generated streams
     let (n_str, n_soup, n_ast) = if args.thorough { (20_000, 20_000, 40_000) } else { (2_000, 2_000, 4_000) };
